@@ -114,7 +114,20 @@ class Interp(Engine):
 
     def e_BoolOp(self, n):
         if self.spec:
-            vals = [self.tobool(self.truth(self.eval(v))) for v in n.values]
+            vals = []
+            for v in n.values:
+                t = self.truth(self.eval(v))
+                if isinstance(t, bool) or z3.is_true(t) or z3.is_false(t):
+                    tv = t if isinstance(t, bool) else z3.is_true(t)
+                    # a concretely deciding operand short-circuits (the rest may not even be well formed)
+                    if isinstance(n.op, ast.And) and not tv:
+                        return False
+                    if isinstance(n.op, ast.Or) and tv:
+                        return True
+                    continue
+                vals.append(t)
+            if not vals:
+                return isinstance(n.op, ast.And)
             r = z3.And(*vals) if isinstance(n.op, ast.And) else z3.Or(*vals)
             return Sym(r, "bool")
         # Python semantics: returns one of the operands; decided path-wise
@@ -503,6 +516,10 @@ class Interp(Engine):
         return True
 
     def x_If(self, s):
+        # `if console._verbosity >= ...:` blocks only build log text: ignored effect
+        for nn_ in ast.walk(s.test):
+            if isinstance(nn_, ast.Name) and nn_.id in IGNORED_CALL_ROOTS and nn_.id not in self.frame.env:
+                return
         c = self.truth(self.eval(s.test))
         self.cur_line = s.lineno
         if self.merge_ifs and not isinstance(c, bool) and self._mergeable(s.body) and self._mergeable(s.orelse):
@@ -695,6 +712,9 @@ class Interp(Engine):
         wkey = (fr.qual, key)
         wset = self.loop_w.setdefault(wkey, {})
         assigned = B.assigned_names(s)
+        for name in spec.get("locals", {}):
+            if name not in assigned:
+                assigned.append(name)        # ghost locals updated by hooks inside the body
         for name in assigned:
             if name in fr.env and fr.env[name] is not _UNBOUND:
                 cur = fr.env[name]
